@@ -62,7 +62,14 @@ TOOLS = {
         lambda path: ["/repo/tools/abidiff", "--non-reachable-types", path, os.path.join(HERE, "sample.abi")],
 }
 
+def _unknown_alias():
+    m = re.search(r"<elf-symbol name='[^']*' [^>]*/>", SAMPLE)
+    return SAMPLE.replace(m.group(0), m.group(0).replace("<elf-symbol ", "<elf-symbol alias='no_such_symbol' ", 1), 1)
+
+
 CASES = {
+    "build_elf_symbol_db: ABG_ASSERT(i != id_sym_map.end())":
+        lambda: _unknown_alias(),
     "read_context::build_or_get_type_decl: ABG_ASSERT(t.operator bool())":
         lambda: _id_on_non_type_element(),
     "read_corpus_from_input: ABG_ASSERT(corp.recording_types_reachable_from_public_interface_supported() == is_tracking_non_reachable_types)":
